@@ -9,6 +9,7 @@ mod c08;
 mod c09;
 mod c10;
 mod c11;
+mod c12;
 mod c14;
 mod c16;
 mod c17;
@@ -62,6 +63,7 @@ fn main() {
         "C20" => c20::main(&args),
         "C06" => c06::main(&args),
         "C10" => c10::main(&args),
+        "C12" => c12::main(&args),
         "C14" => c14::main(&args),
         "setup" => {
             // generate and build every quick-tier corpus so that the first quick check is fast
